@@ -98,6 +98,11 @@ def ghost(r):
         return ".".join(r.choice(["router", "dht", "a", "node-1", "x9", "tracker"]) for _ in range(r.randrange(1, 3))) + r.choice([".com", ".org", ".example", ".io"])
     if k < 0.7:
         return str(ipaddress.IPv4Address(r.getrandbits(32)))
+    if r.random() < 0.3:
+        # the corners of the IPv6 space where two printers disagree (IPv4-mapped and IPv4-compatible blocks, loopback,
+        # unspecified, NAT64), in several spellings (added after seeded change C07-7: std's printer instead of the url crate's)
+        return r.choice(["::1", "::", "::ffff:1.2.3.4", "::ffff:102:304", "::ffff:c000:201", "::1.2.3.4", "::102:304", "64:ff9b::1.2.3.4",
+                         "fe80::1", "2001:db8::", "0:0:0:0:0:ffff:a00:1", "::ffff:0:0", "::ffff:255.255.255.255", "1::", "::1:0:0:0"])
     v = r.getrandbits(128) | (1 << 125)
     if r.random() < 0.5:                                  # runs of zero groups to exercise :: compression
         groups = [(v >> (16 * i)) & 0xffff for i in range(8)]
@@ -359,7 +364,15 @@ def calendar(ts):
 
 
 def host_display(h):
-    return "[" + h + "]" if ":" in h else h
+    """how `show` prints a node's host: an IPv6 literal, in whatever spelling the file has it, comes out in the URL standard's
+    serialisation (hex groups, the first longest run of two or more zero groups compressed, never a dotted-quad tail) in
+    brackets - which is what Python's `compressed` computes, independently of imdl and of the url crate"""
+    if ":" in h:
+        try:
+            return "[" + ipaddress.IPv6Address(h).compressed + "]"
+        except ValueError:
+            return "[" + h + "]"
+    return h
 
 
 URL_NORMAL = re.compile(r"(http|https|udp|ws)://[a-z0-9.]+(:[1-9][0-9]*)?/[a-z0-9._/-]*(\?[a-z0-9=&]*)?(#[a-z]*)?")
@@ -379,8 +392,8 @@ def host_is_normal(h):
         a = ipaddress.ip_address(h)
     except ValueError:
         return False
-    if a.version == 6 and (int(a) >> 32 == 0xffff or int(a) >> 32 == 0):
-        return False                                   # Rust prints these with a dotted-quad tail
+    if a.version == 6:
+        return True                                    # any spelling: host_display states the serialisation
     return a.compressed == h
 
 
@@ -659,7 +672,10 @@ def model_line(data, runs=None):
         if isinstance(nodes, list):
             for nd in nodes:
                 if isinstance(nd, list) and nd and isinstance(nd[0], bytes) and b":" in nd[0]:
-                    env.append((b"H" + nd[0], b"[" + nd[0] + b"]"))
+                    try:
+                        env.append((b"H" + nd[0], host_display(nd[0].decode("utf-8")).encode()))   # the oracle's own serialisation
+                    except UnicodeDecodeError:
+                        env.append((b"H" + nd[0], b"[" + nd[0] + b"]"))
         if runs is not None and runs["json"][0] == 0:
             got = json.loads(runs["json"][1].decode("utf-8"))
             uu = lib.dget(info, "update-url")
@@ -806,6 +822,7 @@ def run(ctx):
     tmp = tempfile.mkdtemp(prefix="c07-")
     try:
         allruns = lib.pmap(lambda c: run_binary(ctx, tmp, c[3]), cases)
+        rendering_follows_stdout_only(ctx, tmp, cases)
         replies = ctx.model([model_line(c[3], rr) for c, rr in zip(cases, allruns)])
         for (kind, expect, top, data), runs, reply in zip(cases, allruns, replies):
             ctx.cov["evaluations"] += 1
@@ -909,3 +926,32 @@ def replay(ctx, path):
     print("oracle: accepted=%s failures=%s" % (accepted, fails))
     print("oracle reading:", {k: v for k, v in (x or {}).items() if not k.startswith("_")})
     return 0
+
+
+def rendering_follows_stdout_only(ctx, tmp, cases):
+    """Which rendering `show` uses is decided by what standard OUTPUT is attached to, not standard error: with stdout on a pipe
+    the report is the tab-delimited one whether or not stderr is a terminal. (Added after seeded change C07-8: the terminal test
+    of stdout reading stderr's descriptor; every other run of this check has both on pipes.)"""
+    from props import c18
+    picked = [c for c in cases if c[1] == "accept"][:6]
+    for kind, expect, top, data in picked:
+        d = tempfile.mkdtemp(dir=tmp)
+        try:
+            with open(os.path.join(d, "t.torrent"), "wb") as f:
+                f.write(data)
+            argv = [ctx.bins["imdl"], "torrent", "show", "--input", "t.torrent"]
+            rc0, out0, err0 = c18.run_proc(argv, d, {"NO_COLOR": "1"})
+            rc1, out1, err1 = c18.run_proc(argv, d, {"NO_COLOR": "1"}, err_tty=True)
+            ctx.cov["evaluations"] += 1
+            ctx.count("stderr_on_a_terminal_stdout_piped")
+            ctx.distinct(("stderr-tty", kind, len(data)))
+            if (rc0, out0) != (rc1, out1):
+                ctx.violation("oracle-failure",
+                              "`imdl torrent show` with standard output on a pipe prints a different report when standard error is a "
+                              "terminal (exit %d / %d, %d / %d bytes; first lines %r / %r)"
+                              % (rc0, rc1, len(out0), len(out1), out0.split(b"\n")[0][:80], out1.split(b"\n")[0][:80]),
+                              {"kind": kind, "torrent_hex": data.hex()[:4000], "argv": argv[1:],
+                               "reproduce": "script -qec 'imdl torrent show --input t.torrent 2>/dev/tty | cat' /dev/null  versus  imdl torrent show --input t.torrent 2>/dev/null | cat"})
+        finally:
+            shutil.rmtree(d, ignore_errors=True)
+
